@@ -24,6 +24,7 @@ from slimta.smtp.reply import Reply
 edge_wsgi.PtrLookup = sm._InertPtr
 
 ID = 'C02'
+REALTIME = True      # runs on the wall clock: an unreproducible failure is re-run before it counts (see runner)
 LEVEL = 'fault_enumeration'
 RULE = ('fault enumeration: edge in {SmtpEdge session on a scripted socket, WsgiEdge.__call__ on a synthetic environ} x queue in '
         '{real Queue + policy chain (none / RecipientSplit / RecipientDomainSplit / Received+split) over a fault-injecting store, '
